@@ -576,6 +576,35 @@ def render_display(ctx, v):
     raise Unsupported("Display of %r" % (v,))
 
 
+def debug_char(ctx, ch):
+    """char::escape_debug as <str as Debug> uses it (double quote escaped, single quote not, grapheme extenders escaped)"""
+    lit = lambda t: [SInt(ord(c), "char") for c in t]
+    if not ch.concrete:
+        # symbolic characters: the ASCII cases are decided one by one; anything else needs the Unicode tables
+        for c0, esc in (('"', '\\"'), ("\\", "\\\\"), ("\n", "\\n"), ("\r", "\\r"), ("\t", "\\t"), ("\0", "\\0")):
+            if ctx.decide(char_eq(ch, SInt(ord(c0), "char"))):
+                return lit(esc)
+        if ctx.decide(z3.And(z3.UGE(ch.z(), 0x20), z3.ULE(ch.z(), 0x7e))):
+            return [ch]
+        raise Unsupported("Debug formatting of a symbolic non-ASCII / control character")
+    import unicodedata
+    c0 = chr(ch.v)
+    table = {'"': '\\"', "\\": "\\\\", "\n": "\\n", "\r": "\\r", "\t": "\\t", "\0": "\\0"}
+    if c0 in table:
+        return lit(table[c0])
+    extend = unicodedata.category(c0) in ("Mn", "Me") or ch.v in (0x200c, 0x200d) or 0xe0020 <= ch.v <= 0xe007f
+    if extend or not c0.isprintable():
+        return lit("\\u{%x}" % ch.v)
+    return [ch]
+
+
+def debug_str(ctx, v):
+    out = [SInt(ord('"'), "char")]
+    for ch in as_str(v).chars:
+        out += debug_char(ctx, ch)
+    return out + [SInt(ord('"'), "char")]
+
+
 def render_arg(ctx, arg, flags, width):
     kind, val = arg.variant, arg.fields[0]
     fill = flags & 0x1FFFFF
@@ -604,6 +633,8 @@ def render_arg(ctx, arg, flags, width):
             chars = render_int_decimal(ctx, v)
         elif isinstance(v, Agg) and v.variant and not v.fields:
             chars = [SInt(ord(c), "char") for c in v.variant]        # derived Debug of a field-less variant: its name
+        elif isinstance(v, (Str, StringBuf)):
+            chars = debug_str(ctx, v)
         else:
             raise Unsupported("Debug formatting of %r" % (v,))
     else:
@@ -1437,6 +1468,7 @@ def register_all(M):
         e = r.fields[0]
         return err(e)
     M.add(r"<(?:Option|Result|std::result::Result|std::option::Option)<.*> as FromResidual<.*>>::from_residual", from_residual)
+    M.add(r"<(?:BTreeMap|HashMap)<.*> as From<\[.*; \d+\]>>::from", lambda c, m, a: M.map_from_array(c, m, a))
     M.add(r"<.* as From<.*>>::from", lambda c, m, a: a[0])   # generic From (error conversion etc.): identity on payload
 
     # ---- Iterator adaptors -------------------------------------------------------------------
@@ -1751,8 +1783,25 @@ def register_all(M):
     M.add(MAP + r"::<.*>::insert", map_insert)
     M.map_insert = map_insert
     M.add(r"<" + MAP + r"<.*> as Clone>::clone", lambda c, m, a: deep_clone(deref(a[0])))
-    M.add(r"<" + MAP + r"<.*> as IntoIterator>::into_iter", lambda c, m, a: SeqIt([Agg("tuple", None, [k, v]) for k, v in deref(a[0]).entries]))
-    M.add(r"<&" + MAP + r"<.*> as IntoIterator>::into_iter|" + MAP + r"::<.*>::iter", lambda c, m, a: SeqIt([Agg("tuple", None, [new_ref(k), new_ref(v)]) for k, v in deref(a[0]).entries]))
+    def ordered_entries(m, mp):
+        """iteration order: a BTreeMap yields its entries by ascending key — reproduced when every key is concrete text (symbolic keys keep the
+        insertion order: only order-insensitive uses are decided faithfully then)"""
+        es = list(deref(mp).entries)
+        if "BTreeMap" in m.group(0):
+            keys = [deref(k) for k, _v in es]
+            if all(isinstance(k, (Str, StringBuf)) and all(ch.concrete for ch in k.chars) for k in keys):
+                es.sort(key=lambda e: [ch.v for ch in deref(e[0]).chars])
+        return es
+    M.add(r"<" + MAP + r"<.*> as IntoIterator>::into_iter", lambda c, m, a: SeqIt([Agg("tuple", None, [k, v]) for k, v in ordered_entries(m, a[0])]))
+    M.add(r"<&" + MAP + r"<.*> as IntoIterator>::into_iter|" + MAP + r"::<.*>::iter", lambda c, m, a: SeqIt([Agg("tuple", None, [new_ref(k), new_ref(v)]) for k, v in ordered_entries(m, a[0])]))
+
+    def map_from_array(c, m, a):
+        mp = MapBuf()
+        for it in as_items(a[0]):
+            k, v = deref(it).fields
+            map_insert(c, m, [new_ref(mp, True), k, v])
+        return mp
+    M.map_from_array = map_from_array
     M.add(MAP + r"::<.*>::is_empty", lambda c, m, a: SBool(len(deref(a[0]).entries) == 0))
     M.add(MAP + r"::<.*>::len", lambda c, m, a: usize(len(deref(a[0]).entries)))
 
